@@ -34,6 +34,9 @@ theorem sumTo_hasDerivAt (n : ℕ) (f : ℕ → ℝ → ℝ) (f' : ℕ → ℝ) 
 
 theorem line_apply (s d : ℕ → ℝ) (τ : ℝ) (k : ℕ) : line s d τ k = s k + τ * d k := rfl
 
+/-- pointwise form of `line_zero` (for `rw` at a single slot). -/
+theorem line_zero_apply (s d : ℕ → ℝ) (k : ℕ) : line s d 0 k = s k := by rw [line_zero]
+
 theorem line_hasDerivAt (s d : ℕ → ℝ) (k : ℕ) (t : ℝ) :
     HasDerivAt (fun τ => line s d τ k) (d k) t := by
   unfold line
@@ -218,6 +221,17 @@ theorem ipow_natCast (x : ℝ) (m : ℕ) : ipow x (m : ℤ) = x ^ m := by
     have := congrArg (fun z : ℤ => (z : ℝ)) (Int.toNat_of_nonneg h0)
     simp only [Int.cast_natCast, Int.cast_neg] at this
     rw [this]; ring
+
+theorem ipow_two (x : ℝ) : ipow x 2 = x * x := by
+  have h : ipow x ((2 : ℕ) : ℤ) = x ^ 2 := ipow_natCast x 2
+  rw [show (2 : ℤ) = ((2 : ℕ) : ℤ) from rfl, h]; ring
+
+theorem ipow_two_sub_one (x : ℝ) : ipow x (2 - 1) = x := by
+  have h : ipow x ((1 : ℕ) : ℤ) = x ^ 1 := ipow_natCast x 1
+  rw [show (2 - 1 : ℤ) = ((1 : ℕ) : ℤ) from rfl, h]; ring
+
+theorem intCast'_two : (intCast' 2 : ℝ) = 2 := by
+  rw [intCast'_eq]; norm_num
 
 theorem abcCost_ipow_hasDerivAt (x a : ℝ) (b : ℤ) (c xl xh : ℝ) (hb : 1 ≤ b) :
     HasDerivAt (fun x => abcCost ipow x a b c xl xh)
